@@ -271,7 +271,11 @@ pub fn run(mut run: Run) -> i32 {
                     match guard(|| Euclidean.densify(&pg, m)) {
                         Ok(d) => {
                             check_densified(acc, idx, "Polygon exterior", &pg.exterior().0, &d.exterior().0, m);
-                            check_densified(acc, idx, "Polygon interior", &pg.interiors()[0].0, &d.interiors()[0].0, m);
+                            if d.interiors().len() != 1 {
+                                acc.viol("densify changed the number of rings / members".into(), idx, || json!({"polygon": format!("{:?}", pg), "max": m, "densified": format!("{:?}", d)}));
+                            } else {
+                                check_densified(acc, idx, "Polygon interior", &pg.interiors()[0].0, &d.interiors()[0].0, m);
+                            }
                         }
                         Err(e) => acc.viol("densify(Polygon) panic".into(), idx, || json!({"polygon": format!("{:?}", pg), "max": m, "panic": e})),
                     }
